@@ -679,13 +679,35 @@ impl Prioritize {
         }
     }
 
-    pub fn clear_queue<B>(&mut self, buffer: &mut Buffer<Frame<B>>, stream: &mut store::Ptr) {
+    pub fn clear_queue<B>(
+        &mut self,
+        buffer: &mut Buffer<Frame<B>>,
+        stream: &mut store::Ptr,
+        counts: &mut Counts,
+    ) {
         let span = tracing::trace_span!("clear_queue", ?stream.id);
         let _e = span.enter();
 
         // TODO: make this more efficient?
         while let Some(frame) = stream.pending_send.pop_front(buffer) {
             tracing::trace!(?frame, "dropping");
+
+            if let Frame::PushPromise(ref pp) = frame {
+                // The promised stream will never be announced to the peer.
+                // Cancel it, or it would wait for its PUSH_PROMISE forever,
+                // holding on to its buffered frames and to its share of the
+                // connection window.
+                if let Some(mut pushed) = stream.store_mut().find_mut(&pp.promised_id()) {
+                    pushed.is_pending_push = false;
+                    pushed.set_reset(Reason::CANCEL, Initiator::Library);
+                    self.clear_queue(buffer, &mut pushed, counts);
+                    self.reclaim_all_capacity(&mut pushed, counts);
+                    // Some callers iterate over the id map, which must not
+                    // change under them: leave the release of the stream to
+                    // `pop_frame`, which drops it as a dangling entry.
+                    self.pending_send.push(&mut pushed);
+                }
+            }
         }
 
         stream.buffered_send_data = 0;
@@ -755,7 +777,7 @@ impl Prioritize {
                                 // response, which requires sending all queued DATA.
                                 if reason != Reason::NO_ERROR {
                                     stream.pending_send.push_front(buffer, frame.into());
-                                    self.clear_queue(buffer, &mut stream);
+                                    self.clear_queue(buffer, &mut stream, counts);
                                     self.reclaim_all_capacity(&mut stream, counts);
                                     self.pending_send.push(&mut stream);
                                     continue;
